@@ -9,6 +9,16 @@ open IstioModel.Wire
 structure DState where
   root : String := "istio-system"
   pas  : List PA := []
+  fx   : Fixes := Fixes.all
+
+/-- Optional 5th token of a `case` line, `fx=<f2><f3><f10><f11><f12>` (bits): which repairs the
+    ambient model applies; default all (= the code in /repo).  Only used to validate the model of
+    the pinned, unrepaired tree against a scratch worktree of that tree. -/
+def parseFx (t : String) : Fixes :=
+  match t.toList with
+  | 'f' :: 'x' :: '=' :: a :: b :: c :: d :: e :: _ =>
+    { f2 := a == '1', f3 := b == '1', f10 := c == '1', f11 := d == '1', f12 := e == '1' }
+  | _ => Fixes.all
 
 def PMode.ofTok : String → PMode
   | "DISABLE" => .disable
@@ -65,6 +75,7 @@ def DRMode.ofTok : String → Option DRMode
 
 def step (s : DState) (toks : List String) : DState × String :=
   match toks with
+  | "case" :: _ :: _ :: root :: fx :: _ => ({ root := dec root, pas := [], fx := parseFx fx }, "ok")
   | "case" :: _ :: _ :: root :: _ => ({ root := dec root, pas := [] }, "ok")
   | "case" :: _ => ({ root := "istio-system", pas := [] }, "ok")
   | ["pa", name, ns, time, sel, mtls, ports] =>
@@ -79,7 +90,7 @@ def step (s : DState) (toks : List String) : DState × String :=
     (s, boolTok (checkMtlsEnabled s.root s.pas (DRMode.ofTok dr) (tokBool epTLS) w (port.toNat?.getD 0)))
   | ["aq", ns, labels, ports] =>
     let w : Workload := { ns := dec ns, labels := parseLabels labels }
-    (s, showAmbient s.root s.pas w (parsePortList ports))
+    (s, showAmbientG s.fx s.root s.pas w (parsePortList ports))
   | _ => (s, "bad-op")
 
 end IstioModel.C10
